@@ -605,6 +605,8 @@ def prod_generators(name):
         from pycoin.ecdsa import secp256r1 as m
         consts = (m._p, m._a, m._b, (m._Gx, m._Gy), m._r)
         out["accel"] = m.secp256r1_generator
+    elif name == "nist_p384":       # user-constructed: no module, the reference constants are the input
+        consts = (c["p"], c["a"], c["b"], c["G"], c["n"])
     else:
         from pycoin.ecdsa import bls12_381_g1 as m
         consts = (m._p, m._a, m._b, (m._Gx, m._Gy), m._r)
@@ -644,7 +646,8 @@ class ProdMul(Driver):
 
     def __init__(self, tier, seed):
         Driver.__init__(self, tier, seed)
-        self.names = ["secp256k1", "secp256r1"] + (["bls12_381_g1"] if tier == "thorough" else [])
+        # nist_p384: a user-constructed Generator whose order is wider than 256 bits (fixed-base table / loop length; see known_findings)
+        self.names = ["secp256k1", "secp256r1", "nist_p384"] + (["bls12_381_g1"] if tier == "thorough" else [])
         self.bound = dict(curves=self.names, scalars=len(prod_K(ec.SECP256K1["n"])), points=3,
                           K="0,+-1,+-2,3,n-1,n,n+1,2n,(n+-1)/2,2^i,2^i-1 (i=8,16..256,264),2^300")
 
